@@ -3,6 +3,7 @@ package container
 import (
 	"errors"
 	"fmt"
+	"slices"
 	"time"
 
 	icrypto "github.com/nspcc-dev/neofs-node/internal/crypto"
@@ -131,6 +132,12 @@ func (cp *Processor) verifySessionV2(tok sessionv2.Token, v signatureVerificatio
 		if !tok.AssertContainer(v.verbV2, v.idContainer) {
 			return errWrongCID
 		}
+	} else if !slices.ContainsFunc(tok.Contexts(), func(c sessionv2.Context) bool {
+		return slices.Contains(c.Verbs(), v.verbV2)
+	}) {
+		// there is no container to match yet (creation), but the verb must be
+		// delegated anyway
+		return errWrongSessionVerb
 	}
 
 	if tok.OriginalIssuer() != v.ownerContainer {
